@@ -184,9 +184,20 @@ func runScenario(s *C20Scenario, dir string) *C20Result {
 				if !more() {
 					return
 				}
-				it, _, err := tx.WriteRequestBody(body)
+				// the body arrives in two writes: the first stays in memory, the second makes the buffer spill
+				cut := len(body)
+				if cut > 20 {
+					cut = 20
+				}
+				it, _, err := tx.WriteRequestBody(body[:cut])
 				if note(it, err) {
 					return
+				}
+				if cut < len(body) {
+					it, _, err = tx.WriteRequestBody(body[cut:])
+					if note(it, err) {
+						return
+					}
 				}
 			}
 			if !more() {
